@@ -18,6 +18,8 @@ func dispatch(t *testing.T, sc scenario) result {
 		return runLimit(t, sc)
 	case 7:
 		return runPrio2(t, sc)
+	case 9:
+		return runSimple2(t, sc)
 	default:
 		return result{verdict: "unknown-family"}
 	}
